@@ -81,6 +81,39 @@ def check_greedy(run, A):
     okg = bool(raises) and first_store is not None and raises[0].seq < first_store and len(raises[0].guards) == 1
     run.check(okg, 'R-SEL', '_mapping_from_score_matrix: finiteness guard precedes every assignment', fn.loc(), '', 'no `raise` on non-finite scores before the selection',
               construct=f'R-SEL::{q}::finite-guard')
+    # every returned mapping is computed from the VALUES of the scores (a buffer of zeros that is never filled is not a permutation for K > 1)
+    from ..walk import reaches_param_avoiding
+
+    def shape_only(x):
+        if x.op == 'attr' and x.args[1] in ('shape', 'ndim', 'dtype', 'size'):
+            return True
+        return is_call_to(x, 'numpy.zeros_like', 'numpy.ones_like', 'numpy.empty_like', 'builtin.len', 'numpy.shape', 'numpy.ndim')
+    def depends_on_scores(t_):
+        # data AND control dependence (the arg-max search selects a permutation by comparing scores), loop-carried values followed
+        seen_, stack_ = set(), [t_]
+        while stack_:
+            x = stack_.pop()
+            if not isinstance(x, T) or x.id in seen_:
+                continue
+            seen_.add(x.id)
+            if shape_only(x):
+                continue
+            if x.op == 'param':
+                if x.args[0] == 'score_matrix':
+                    return True
+                continue
+            if x.op == 'mu' and isinstance(getattr(x, 'next', None), T):
+                stack_.append(x.next)
+            for a in x.args:
+                for b in (a if isinstance(a, tuple) else (a,)):
+                    for c in (b if isinstance(b, tuple) else (b,)):
+                        if isinstance(c, T):
+                            stack_.append(c)
+        return False
+    alts_ = [r_ for r_ in ret_alts(g)]
+    run.check(bool(alts_) and all(depends_on_scores(r_) for r_ in alts_), 'R-SEL', '_mapping_from_score_matrix: every returned mapping depends on the scores',
+              fn.loc(), '', 'a returned mapping has no data path to the values of `score_matrix` (only to its shape): the buffer of the mapping is never filled with the picks',
+              construct=f'R-SEL::{q}::filled')
     greedy = [e for e in g.events if e.kind == 'store' and any(const_val(c.args[2]) is not NOVAL or True for c, p in e.guards if c.op == 'cmp' and p and
                                                                  any(const_val(x) == 'greedy' for x in walk_terms(c.args[2])))]
     if len(greedy) < 1:
